@@ -231,12 +231,14 @@ theorem round_one (t : ITree) (c : Ctx t) (n : MuxNode) (hm : muxesOf t.top = [n
       refine ((List.Perm.cons _ (hperm1.trans hleafperm)).trans ?_).trans (muxesOf_one_map t.bigEndian n t.top hm).symm
       exact (List.perm_append_comm (l₁ := [Item.mux (normMux t.bigEndian n)]))
   have := importMsg_eval_one (exportMsg t) _ (muxSigOf t.bigEndian n)
-    (nestedRequested_false _ (by rw [hfilter]; simp))
     (by
       rw [hcap, hbe]
       exact firstLoop_ok _ _ _ [] (fun s hs => ⟨(hokS s hs).bound, (hokS s hs).be⟩) hnames (fun s _ hm => by cases hm))
     (by rw [hsize]; have := c.size8; omega) hfilter (by rw [hcap, hexts]; exact hone)
   rw [this, hfinal, hbe, hszI]
-  rfl
+  congr 1
+  show (⟨t.id, t.sizeByte, t.bigEndian, t.top.map (normItem t.bigEndian), []⟩ : ITree) =
+    ⟨t.id, t.sizeByte, t.bigEndian, t.top.map (normItem t.bigEndian), t.nested⟩
+  rw [c.flat]
 
 end Acme.Import
